@@ -208,6 +208,10 @@ const ALIAS_VALUES: &[(&str, &str)] = &[
     ("backslash", "echo a\\\\b"),
     ("trailsp", "sudo "),
     ("nonascii", "echo ü"),
+    // values of more than one line: every line of them is alias text, whatever it looks like
+    ("multiline", "printf '%s\\n' \"hello\nworld\""),
+    ("multiline", "for i in 1 2\ndo\necho $i\ndone"),
+    ("multiline", "echo first\nalias zz=1"),
 ];
 
 fn value_class(v: &str) -> String {
